@@ -374,6 +374,27 @@ def execute_large(case, stats):
     n, res_, seed = lg["n"], lg["res"], lg["seed"]
     viol = []
     out = {"violations": viol, "nontrivial": True, "signature": "large:%d:%d" % (n, seed)}
+    if lg.get("onebin"):
+        # more than 2**24 points in one bin, single-precision coordinates, default layer: the count of a bin is exact at any size
+        g = np.random.default_rng(seed)
+        x = g.uniform(2.2, 4.8, n).astype(np.float32)
+        y = g.uniform(-0.5, 2.5, n).astype(np.float32)
+        old = numba.get_num_threads()
+        numba.set_num_threads(1)
+        try:
+            with np.errstate(all="ignore"):
+                plot = osyris.histogram2d(osyris.Array(values=x, unit="cm", name="xq"), osyris.Array(values=y, unit="", name="yq"),
+                                          resolution=1, xmin=2.0, xmax=5.0, ymin=-1.0, ymax=3.0, plot=False)
+        except Exception as e:
+            viol.append({"class": "frontend-exception", "clause": "large", "key": {"effect": type(e).__name__, "when": "large-onebin"}, "detail": {"error": f"{type(e).__name__}: {e}"[:300], "n": n}})
+            return out
+        finally:
+            numba.set_num_threads(old)
+        stats.inc("probe.large_input_one_bin_above_2pow24")
+        got = float(np.ma.getdata(plot.layers[0]["data"]).ravel()[0])
+        if got != float(n) or bool(np.ma.getmaskarray(plot.layers[0]["data"]).ravel()[0]):
+            viol.append({"class": "counts", "clause": "large-onebin", "key": {"effect": "total", "when": "large-onebin"}, "detail": {"n": n, "got": got}})
+        return out
     g = np.random.default_rng(seed)
     bx, by = g.integers(0, res_, n), g.integers(0, res_, n)
     x = 2.0 + (bx + g.uniform(0.1, 0.9, n)) * (3.0 / res_)
@@ -910,9 +931,10 @@ def finalize(tier, base_seed, stats, viols):
     # ---- lengths beyond the simulator: shipped front-end + compiled kernel, one thread, exact reference
     sizes = [2 ** 20 + 37] if tier == "quick" else [2 ** 20 + 37, 2_500_003, 2 ** 22 + 5]
     nlarge = 0
-    plan = [(n, 1) for n in sizes] + [(2 ** 20 + 37, "all")]
+    plan = [(n, 1) for n in sizes] + [(2 ** 20 + 37, "all")] + [(2 ** 24 + 4321, "onebin")]
     for k, (n, thr) in enumerate(plan):
-        case = {"large": {"n": n, "res": [7, 16, 5][k % 3], "seed": core.H(base_seed, PROPERTY, "large", k) % (2 ** 31), "threads": thr}, "run": -1 - k, "seed": 0}
+        case = {"large": {"n": n, "res": [7, 16, 5][k % 3], "seed": core.H(base_seed, PROPERTY, "large", k) % (2 ** 31), "threads": thr if thr != "onebin" else 1,
+                          "onebin": thr == "onebin"}, "run": -1 - k, "seed": 0}
         res = core.safe_execute(sys.modules[__name__], case, stats)
         nlarge += 1
         for v in res["violations"]:
